@@ -727,6 +727,73 @@ func init() {
 				}
 			}
 		}
+		// ---- pools that carry margin liabilities (written on the stored pool as x/margin's Borrow leaves
+		// them): CalculatePoolUnits classifies an add by the DEPTHS (balance + liabilities), so the raw
+		// balance ratio and the depth ratio differ.  Adds exactly at the raw ratio, exactly at the depth
+		// ratio, strictly between the two, one base unit off each, and outside on either side, under every
+		// combination of DISABLE_BUY / DISABLE_SELL on rowan and on the pool token.
+		type liabCfg struct{ nNum, eNum uint64 } // liabilities = balance * num / 100
+		liabCfgs := []liabCfg{{10, 0}, {0, 10}, {3, 20}, {25, 5}}
+		flagMasks := []int{1, 1 | 8, 1 | 16, 1 | 8 | 16}
+		liabTrial := func(lc liabCfg, mr, me int, shape int, jitter int64) {
+			tctx, _ := base.CacheContext()
+			pl, err := pe.app.ClpKeeper.GetPool(tctx, tokA)
+			if err != nil {
+				panic(err)
+			}
+			pl.NativeLiabilities = pl.NativeAssetBalance.MulUint64(lc.nNum).QuoUint64(100)
+			pl.ExternalLiabilities = pl.ExternalAssetBalance.MulUint64(lc.eNum).QuoUint64(100)
+			if err := pe.app.ClpKeeper.SetPool(tctx, &pl); err != nil {
+				panic(err)
+			}
+			nB, eB := pl.NativeAssetBalance, pl.ExternalAssetBalance
+			R, A := nB.Add(pl.NativeLiabilities), eB.Add(pl.ExternalLiabilities)
+			var r, a sdk.Uint
+			route := ""
+			switch shape {
+			case 0:
+				r, a, route = nB, eB, "liab.rawratio"
+			case 1:
+				r, a, route = R, A, "liab.depthratio"
+			case 2:
+				r, a, route = nB.Add(R), eB.Add(A), "liab.between" // mediant: strictly between the two ratios
+			case 3:
+				r, a, route = nB.MulUint64(3).Add(R), eB.MulUint64(3).Add(A), "liab.between.nearraw"
+			case 4:
+				r, a, route = nB.Add(R.MulUint64(3)), eB.Add(A.MulUint64(3)), "liab.between.neardepth"
+			case 5:
+				r, a, route = R.MulUint64(2), A, "liab.outside.sell"
+			default:
+				r, a, route = R, A.MulUint64(2), "liab.outside.buy"
+			}
+			if jitter > 0 {
+				r = r.Add(sdk.NewUint(uint64(jitter)))
+			} else if jitter < 0 {
+				a = a.Add(sdk.NewUint(uint64(-jitter)))
+			}
+			entries := good("rowan", tokA)
+			entries = append(entries, entryOf("rowan", mr, ""), entryOf(tokA, me, ""))
+			out.Emit("reset", "ok", "reset", false)
+			pe.edit(tctx, out, "", "set", nil, "", entries)
+			pe.run(tctx, permMsg{kind: "add", route: route, ext: tokA, r: r, a: a}, out)
+		}
+		for _, lc := range liabCfgs {
+			for _, mr := range flagMasks {
+				for _, me := range flagMasks {
+					for shape := 0; shape < 7; shape++ {
+						liabTrial(lc, mr, me, shape, 0)
+					}
+					liabTrial(lc, mr, me, 0, 1)
+					liabTrial(lc, mr, me, 0, -1)
+					liabTrial(lc, mr, me, 1, 1)
+					liabTrial(lc, mr, me, 1, -1)
+				}
+			}
+		}
+		for t := 0; t < n/6; t++ {
+			lc := liabCfg{uint64(rng.Intn(40)), uint64(rng.Intn(40))}
+			liabTrial(lc, flagMasks[rng.Intn(4)], flagMasks[rng.Intn(4)], rng.Intn(7), int64(rng.Intn(5)-2))
+		}
 		// ---- transaction histories (baseapp runMsgs discipline): a chain whose committed state evolves;
 		// every transaction runs ALL its messages on ONE branch, stops at the first failing message
 		// and is written back only if all succeeded and it is not a simulation.  Several transactions
